@@ -1,6 +1,6 @@
 From Coq Require Import ZArith NArith Bool List Lia.
 From Mysync Require Import Gtid.Interval Gtid.GtidSet Pure.Quorum Base.Prog Base.ProgFacts Base.Config
-  Procs.NodeOps Procs.ActiveNodes Procs.Switchover Procs.Manager.
+  Procs.NodeOps Procs.ActiveNodes Procs.Switchover Procs.Manager Proofs.SwitchoverProofs.
 Import ListNotations.
 Open Scope Z_scope.
 
@@ -480,3 +480,234 @@ Theorem attempts_bounded cfg (sw : switch_rec) (n : nat) active cs :
   let sw_n := with_result sw false 0 (sw_run_count sw + Z.of_nat n) in
   c_switchover_max_attempts cfg <= sw_run_count sw + Z.of_nat n -> approve_switchover cfg sw_n active cs = Some 814.
 Proof. intros Hf Hm sw_n Hn. apply approve_switchover_limit; [exact Hf|exact Hm|exact Hn]. Qed.
+
+(* ================================================================ C09: maintenance *)
+Definition frozen_call (c : call) : Prop :=
+  match c with FileExists _ | FileWrite 3%N | DcsGet PMaintenance => True | _ => False end.
+
+(* the paused loop: while the record exists and does not ask to leave (or cannot be read) the process only
+   keeps its marker file and re-reads the record; its memory is untouched *)
+Theorem state_maintenance_frozen cfg env m tr n m' :
+  runs (state_maintenance cfg env m) tr (Done (n, m')) ->
+  (forall e, In e tr -> ev_call e = DcsGet PMaintenance ->
+     ev_resp e <> RErr ENotFound /\ forall mt, ev_resp e = RVal (VMaint mt) -> mt_should_leave mt = false) ->
+  n = NxMaintenance /\ m' = m /\ Forall (fun e => frozen_call (ev_call e)) tr.
+Proof.
+  unfold state_maintenance. cbn [bind]. intros H Hm.
+  cbn [runs] in H. destruct tr as [|e0 tr0]; [destruct H|]. destruct H as (_ & Ec0 & H).
+  assert (F0 : frozen_call (ev_call e0)) by (rewrite Ec0; exact I).
+  assert (REST : forall tr1, (forall e, In e tr1 -> In e (e0 :: tr0)) ->
+     runs (Do 355 (DcsGet PMaintenance) (fun rm =>
+             match rm with
+             | RVal (VMaint mt) => if mt_should_leave mt then try_leave_maintenance cfg env m else Ret (NxMaintenance, m)
+             | RErr ENotFound => try_leave_maintenance cfg env m
+             | _ => Ret (NxMaintenance, m)
+             end)) tr1 (Done (n, m')) ->
+     n = NxMaintenance /\ m' = m /\ Forall (fun e => frozen_call (ev_call e)) tr1).
+  { intros tr1 Hsub R. cbn [runs] in R. destruct tr1 as [|e1 tr2]; [destruct R|]. destruct R as (_ & Ec1 & R).
+    destruct (Hm e1 (Hsub e1 (or_introl eq_refl)) Ec1) as [Hnf Hl].
+    assert (F1 : frozen_call (ev_call e1)) by (rewrite Ec1; exact I).
+    assert (FIN : runs (Ret (NxMaintenance, m)) tr2 (Done (n, m')) -> n = NxMaintenance /\ m' = m /\ Forall (fun e => frozen_call (ev_call e)) (e1 :: tr2)).
+    { intros K. apply run_ret in K. destruct K as [-> K]. inversion K. split; [reflexivity|]. split; [reflexivity|]. constructor; [exact F1|constructor]. }
+    destruct (ev_resp e1) as [er| | | | | | | | | | |v| | |] eqn:Er; try (apply FIN; exact R).
+    - destruct er; try (apply FIN; exact R). exfalso. apply Hnf. reflexivity.
+    - destruct v; try (apply FIN; exact R). rewrite (Hl m0 eq_refl) in R. apply FIN. exact R. }
+  destruct (match ev_resp e0 with RBool b => b | _ => false end).
+  - cbn [bind] in H. destruct (REST tr0 (fun e He => or_intror He) H) as (A & B & C). split; [exact A|]. split; [exact B|]. constructor; assumption.
+  - cbn [bind runs] in H. destruct tr0 as [|e1 tr1]; [destruct H|]. destruct H as (_ & Ec1 & H). cbn [bind] in H.
+    destruct (REST tr1 (fun e He => or_intror (or_intror He)) H) as (A & B & C). split; [exact A|]. split; [exact B|].
+    constructor; [exact F0|]. constructor; [rewrite Ec1; exact I|exact C].
+Qed.
+
+(* candidates follow only after the acknowledgement, and then do nothing else *)
+Definition registry_read (c : call) : Prop :=
+  match c with DcsConnected | DcsChildren PHaNodes | DcsChildren PCascadeNodes | DcsGet (PCascadeNode _) | DcsGet PMaintenance => True | _ => False end.
+
+Lemma rr_update_hosts m : allcalls (fun _ c => registry_read c) (update_hosts_info m).
+Proof.
+  unfold update_hosts_info, children_or_empty. cbn [bind allcalls]. split; [exact I|]. intros r.
+  assert (CC : forall l, allcalls (fun _ c => registry_read c) (cascade_configs l)).
+  { induction l as [|h t IH]; [exact I|]. cbn [cascade_configs allcalls]. split; [exact I|]. intros x. destruct x; try exact I. destruct v; try exact I. exact IH. }
+  destruct r as [er| | | | | | | | | | | |l| |]; cbn [bind]; try exact I.
+  - destruct er; cbn [bind]; try exact I. cbn [allcalls]. split; [exact I|]. intros r2.
+    destruct r2 as [er2| | | | | | | | | | | |l2| |]; cbn [bind]; try exact I.
+    + destruct er2; cbn [bind]; try exact I.
+    + apply allcalls_bind; [apply CC|]. intros [|]; exact I.
+  - cbn [allcalls]. split; [exact I|]. intros r2.
+    destruct r2 as [er2| | | | | | | | | | | |l2| |]; cbn [bind]; try exact I.
+    + destruct er2; cbn [bind]; try exact I.
+    + apply allcalls_bind; [apply CC|]. intros [|]; exact I.
+Qed.
+
+Theorem state_candidate_follows m tr n m' :
+  runs (state_candidate m) tr (Done (n, m')) ->
+  (exists e mt, In e tr /\ ev_call e = DcsGet PMaintenance /\ ev_resp e = RVal (VMaint mt) /\ mt_paused mt = true /\ mt_light mt = false) ->
+  n = NxMaintenance /\ Forall (fun e => registry_read (ev_call e)) tr.
+Proof.
+  unfold state_candidate. cbn [bind]. intros H (em & mt & Hin & Ecm & Erm & Hp & Hl).
+  cbn [runs] in H. destruct tr as [|e0 tr0]; [destruct H|]. destruct H as (_ & Ec0 & H).
+  assert (N0 : ev_call e0 <> DcsGet PMaintenance) by (rewrite Ec0; discriminate).
+  destruct Hin as [<-|Hin]; [contradiction|].
+  destruct (negb (match ev_resp e0 with RBool b => b | _ => false end)).
+  { apply run_ret in H. destruct H as [-> _]. destruct Hin. }
+  destruct (runs_bind_inv _ _ _ _ H) as [(t1 & t2 & u & R1 & R2 & ->)|(s & _ & K)]; [|discriminate K].
+  pose proof (allcalls_sound _ _ (rr_update_hosts m) _ _ R1) as F1.
+  destruct (negb (fst u)). { apply run_ret in R2. destruct R2 as [-> _]. rewrite app_nil_r in Hin.
+    exfalso. rewrite Forall_forall in F1. specialize (F1 _ Hin). unfold ev_ok in F1. rewrite Ecm in F1.
+    (* a maintenance read cannot be part of the registry refresh *)
+    clear - R1 Hin Ecm. revert R1 Hin. unfold update_hosts_info, children_or_empty. intros R1 Hin.
+    assert (NM : allcalls (fun _ c => c <> DcsGet PMaintenance) (update_hosts_info m)).
+    { unfold update_hosts_info, children_or_empty. cbn [bind allcalls]. split; [discriminate|]. intros r.
+      assert (CC : forall l, allcalls (fun _ c => c <> DcsGet PMaintenance) (cascade_configs l)).
+      { induction l as [|h t IH]; [exact I|]. cbn [cascade_configs allcalls]. split; [discriminate|]. intros x. destruct x; try exact I. destruct v; try exact I. exact IH. }
+      destruct r as [er| | | | | | | | | | | |l| |]; cbn [bind]; try exact I.
+      - destruct er; cbn [bind]; try exact I. cbn [allcalls]. split; [discriminate|]. intros r2.
+        destruct r2 as [er2| | | | | | | | | | | |l2| |]; cbn [bind]; try exact I.
+        + destruct er2; cbn [bind]; try exact I.
+        + apply allcalls_bind; [apply CC|]. intros [|]; exact I.
+      - cbn [allcalls]. split; [discriminate|]. intros r2.
+        destruct r2 as [er2| | | | | | | | | | | |l2| |]; cbn [bind]; try exact I.
+        + destruct er2; cbn [bind]; try exact I.
+        + apply allcalls_bind; [apply CC|]. intros [|]; exact I. }
+    pose proof (allcalls_sound _ _ NM _ _ R1) as F. rewrite Forall_forall in F. exact (F _ Hin Ecm). }
+  cbn [runs] in R2. destruct t2 as [|e1 t3]; [destruct R2|]. destruct R2 as (_ & Ec1 & R2).
+  (* e1 is the maintenance read; em must be it *)
+  assert (NM : Forall (fun e => ev_call e <> DcsGet PMaintenance) t1).
+  { assert (A : allcalls (fun _ c => c <> DcsGet PMaintenance) (update_hosts_info m)).
+    { unfold update_hosts_info, children_or_empty. cbn [bind allcalls]. split; [discriminate|]. intros r.
+      assert (CC : forall l, allcalls (fun _ c => c <> DcsGet PMaintenance) (cascade_configs l)).
+      { induction l as [|h t IH]; [exact I|]. cbn [cascade_configs allcalls]. split; [discriminate|]. intros x. destruct x; try exact I. destruct v; try exact I. exact IH. }
+      destruct r as [er| | | | | | | | | | | |l| |]; cbn [bind]; try exact I.
+      - destruct er; cbn [bind]; try exact I. cbn [allcalls]. split; [discriminate|]. intros r2.
+        destruct r2 as [er2| | | | | | | | | | | |l2| |]; cbn [bind]; try exact I.
+        + destruct er2; cbn [bind]; try exact I.
+        + apply allcalls_bind; [apply CC|]. intros [|]; exact I.
+      - cbn [allcalls]. split; [discriminate|]. intros r2.
+        destruct r2 as [er2| | | | | | | | | | | |l2| |]; cbn [bind]; try exact I.
+        + destruct er2; cbn [bind]; try exact I.
+        + apply allcalls_bind; [apply CC|]. intros [|]; exact I. }
+    exact (allcalls_sound _ _ A _ _ R1). }
+  apply in_app_or in Hin. destruct Hin as [Hin|Hin]; [exfalso; rewrite Forall_forall in NM; exact (NM _ Hin Ecm)|].
+  assert (LOCK : runs (l <- lock_acquire 792 ;; Ret (if l then NxManager else NxCandidate, snd u)) t3 (Done (n, m')) -> In em t3 -> False).
+  { intros K Hi. unfold lock_acquire in K. cbn [bind runs] in K. destruct t3 as [|e2 t4]; [destruct Hi|]. destruct K as (_ & Ec2 & K).
+    destruct Hi as [<-|Hi]; [rewrite Ecm in Ec2; discriminate|]. destruct (ev_resp e2); try destruct b; apply run_ret in K; destruct K as [-> _]; destruct Hi. }
+  destruct Hin as [<-|Hin].
+  - rewrite Erm in R2. rewrite Hp, Hl in R2. cbn [andb negb] in R2. apply run_ret in R2. destruct R2 as [-> K]. inversion K.
+    split; [reflexivity|]. constructor; [rewrite Ec0; exact I|]. apply Forall_app. split; [exact F1|]. constructor; [rewrite Ecm; exact I|constructor].
+  - exfalso. destruct (ev_resp e1) as [er| | | | | | | | | | |v| | |]; try (apply run_ret in R2; destruct R2 as [-> _]; destruct Hin).
+    + destruct er; try (apply run_ret in R2; destruct R2 as [-> _]; destruct Hin). exact (LOCK R2 Hin).
+    + destruct v; try (apply run_ret in R2; destruct R2 as [-> _]; destruct Hin).
+      destruct (mt_paused m0 && negb (mt_light m0)); [apply run_ret in R2; destruct R2 as [-> _]; destruct Hin|exact (LOCK R2 Hin)].
+Qed.
+
+(* leaving re-learns the master from the servers: ensure_current_master records a master only when exactly
+   one alive master exists, and it records that one; several alive masters are reported as such *)
+Theorem ensure_current_master_spec cs tr r :
+  runs (ensure_current_master cs) tr (Done r) ->
+  match r with
+  | MrOk mm => alive_masters cs = [mm] /\ exists e, tr = [e] /\ ev_call e = DcsSet PMaster (VHost mm) /\ ev_resp e = ROk
+  | MrMany => 2 <= Z.of_nat (length (alive_masters cs)) /\ tr = []
+  | MrNone => alive_masters cs = [] /\ tr = []
+  | MrErr => exists mm, alive_masters cs = [mm] /\ exists e, tr = [e] /\ ev_call e = DcsSet PMaster (VHost mm) /\ ev_resp e <> ROk
+  end.
+Proof.
+  unfold ensure_current_master. destruct (alive_masters cs) as [|a [|b rest]] eqn:Ea.
+  - intros H. apply run_ret in H. destruct H as [-> <-]. auto.
+  - unfold dcs_set_. cbn [bind runs]. destruct tr as [|e tr']; [intros []|]. intros (_ & Ec & H).
+    destruct (ev_resp e) as [er| | | | | | | | | | | | | |] eqn:Er; cbn in H; destruct H as [-> K]; inversion K; subst r;
+      try (exists a; split; [reflexivity|]; exists e; split; [reflexivity|]; split; [exact Ec|rewrite Er; discriminate]).
+    split; [reflexivity|]. exists e. auto.
+  - intros H. apply run_ret in H. destruct H as [-> <-]. split; [cbn [length]; lia|reflexivity].
+Qed.
+
+Definition has_ev (tr : trace) (P : event -> Prop) : Prop := exists e, In e tr /\ P e.
+Lemma has_ev_app_l t1 t2 P : has_ev t1 P -> has_ev (t1 ++ t2) P.
+Proof. intros (e & H & K). exists e. split; [apply in_or_app; left; exact H|exact K]. Qed.
+Lemma has_ev_app_r t1 t2 P : has_ev t2 P -> has_ev (t1 ++ t2) P.
+Proof. intros (e & H & K). exists e. split; [apply in_or_app; right; exact H|exact K]. Qed.
+
+(* leaving maintenance succeeds only when exactly one alive master exists in the freshly read cluster state:
+   that node is recorded as master, the active list read back is non-empty, and only then the record is removed *)
+Theorem leave_maintenance_success cfg env m tr m' :
+  runs (leave_maintenance cfg env m) tr (Done (None, m')) ->
+  exists cs mm, alive_masters cs = [mm] /\
+    has_ev tr (fun e => ev_call e = DcsSet PMaster (VHost mm) /\ ev_resp e = ROk) /\
+    has_ev tr (fun e => ev_call e = DcsGet PActiveNodes /\ exists h l, ev_resp e = RVal (VHosts (h :: l))) /\
+    has_ev tr (fun e => ev_call e = DcsDelete PMaintenance /\ ev_resp e = ROk).
+Proof.
+  unfold leave_maintenance. intros H.
+  destruct (runs_bind_inv _ _ _ _ H) as [(t1 & t2 & [ok m1] & _ & R & ->)|(s & _ & K)]; [|discriminate K]. clear H.
+  destruct (negb ok); [apply run_ret in R; destruct R as [_ K]; discriminate K|].
+  destruct (runs_bind_inv _ _ _ _ R) as [(t3 & t4 & cs & _ & R2 & ->)|(s & _ & K)]; [|discriminate K]. clear R.
+  destruct (runs_bind_inv _ _ _ _ R2) as [(t5 & t6 & mr & Rm & R3 & ->)|(s & _ & K)]; [|discriminate K]. clear R2.
+  pose proof (ensure_current_master_spec _ _ _ Rm) as SP.
+  destruct mr as [mm| | |].
+  2:{ cbn [runs] in R3. destruct t6 as [|e t6']; [destruct R3|]. destruct R3 as (_ & _ & R3). apply run_ret in R3. destruct R3 as [_ K]. discriminate K. }
+  2:{ apply run_ret in R3. destruct R3 as [_ K]. discriminate K. }
+  2:{ apply run_ret in R3. destruct R3 as [_ K]. discriminate K. }
+  destruct SP as [Ea (e & -> & Ec & Er)]. exists cs, mm. split; [exact Ea|].
+  split. { apply has_ev_app_r, has_ev_app_r, has_ev_app_l. exists e. split; [left; reflexivity|auto]. }
+  destruct (runs_bind_inv _ _ _ _ R3) as [(t7 & t8 & ocsd & _ & R4 & ->)|(s & _ & K)]; [|discriminate K]. clear R3.
+  destruct ocsd as [csd|]; [|apply run_ret in R4; destruct R4 as [_ K]; discriminate K].
+  cbn [tail_envs] in R4.
+  destruct (runs_bind_inv _ _ _ _ R4) as [(t9 & t10 & rm & _ & R5 & ->)|(s & _ & K)]; [|discriminate K]. clear R4.
+  destruct (runs_bind_inv _ _ _ _ R5) as [(t11 & t12 & cs2 & _ & R6 & ->)|(s & _ & K)]; [|discriminate K]. clear R5.
+  destruct (runs_bind_inv _ _ _ _ R6) as [(t13 & t14 & ua & _ & R7 & ->)|(s & _ & K)]; [|discriminate K]. clear R6.
+  destruct (fst ua); [|apply run_ret in R7; destruct R7 as [_ K]; discriminate K].
+  cbn [runs] in R7. destruct t14 as [|ea t15]; [destruct R7|]. destruct R7 as (_ & Eca & R7).
+  assert (BAD : forall c mmm, runs (Ret (Some c, mmm)) t15 (Done (None (A:=Z), m')) -> False) by (intros c mmm K; apply run_ret in K; destruct K as [_ K]; discriminate K).
+  destruct (ev_resp ea) as [er| | | | | | | | | | |v| | |] eqn:Era; try (exfalso; eapply BAD; exact R7).
+  { destruct er; exfalso; eapply BAD; exact R7. }
+  destruct v; try (exfalso; eapply BAD; exact R7). destruct l as [|h0 l0]; [exfalso; eapply BAD; exact R7|].
+  split.
+  { do 7 apply has_ev_app_r. exists ea. split; [left; reflexivity|]. split; [exact Eca|]. exists h0, l0. exact Era. }
+  destruct (runs_bind_inv _ _ _ _ R7) as [(t16 & t17 & ed & Rd & R8 & ->)|(s & _ & K)]; [|discriminate K].
+  unfold dcs_delete_ in Rd. cbn [runs] in Rd. destruct t16 as [|edl t18]; [destruct Rd|]. destruct Rd as (_ & Ecd & Rd).
+  do 7 apply has_ev_app_r. exists edl. split; [right; apply in_or_app; left; left; reflexivity|]. split; [exact Ecd|].
+  destruct (ev_resp edl) as [er| | | | | | | | | | | | | |]; cbn in Rd; destruct Rd as [_ K]; inversion K; subst ed;
+    try (apply run_ret in R8; destruct R8 as [_ K2]; discriminate K2). reflexivity.
+Qed.
+
+(* with several alive masters the mode is kept and the emergency marker is raised *)
+Theorem leave_maintenance_many_masters cfg env m tr m1 :
+  runs (leave_maintenance cfg env m) tr (Done (Some 90030, m1)) ->
+  has_ev tr (fun e => ev_call e = FileWrite f_emerge) /\ ~ has_ev tr (fun e => ev_call e = DcsDelete PMaintenance).
+Proof.
+  unfold leave_maintenance. intros H.
+  destruct (runs_bind_inv _ _ _ _ H) as [(t1 & t2 & [ok m2] & R0 & R & ->)|(s & _ & K)]; [|discriminate K]. clear H.
+  assert (N1 : ~ has_ev t1 (fun e => ev_call e = DcsDelete PMaintenance)).
+  { intros (e & Hin & Ec). pose proof (allcalls_sound _ _ (rr_update_hosts m) _ _ R0) as F. rewrite Forall_forall in F.
+    specialize (F _ Hin). unfold ev_ok in F. rewrite Ec in F. exact F. }
+  destruct (negb ok); [apply run_ret in R; destruct R as [_ K]; inversion K|].
+  destruct (runs_bind_inv _ _ _ _ R) as [(t3 & t4 & cs & Rcs & R2 & ->)|(s & _ & K)]; [|discriminate K]. clear R.
+  assert (N3 : ~ has_ev t3 (fun e => ev_call e = DcsDelete PMaintenance)).
+  { intros (e & Hin & Ec).
+    assert (A : allcalls (fun _ c => (fun c => match c with Now | Sql _ _ => true | _ => false end) c = true) (cluster_state_from_db 90026 (all_hosts m2))).
+    { apply Proofs.SwitchoverProofs.c_cluster_state; try reflexivity; intros; reflexivity. }
+    pose proof (allcalls_sound _ _ A _ _ Rcs) as F. rewrite Forall_forall in F. specialize (F _ Hin). unfold ev_ok in F. rewrite Ec in F. discriminate F. }
+  destruct (runs_bind_inv _ _ _ _ R2) as [(t5 & t6 & mr & Rm & R3 & ->)|(s & _ & K)]; [|discriminate K]. clear R2.
+  pose proof (ensure_current_master_spec _ _ _ Rm) as SP.
+  destruct mr as [mm| | |].
+  - (* one master: code 90030 cannot come out *)
+    exfalso. destruct (runs_bind_inv _ _ _ _ R3) as [(t7 & t8 & ocsd & _ & R4 & _)|(s & _ & K)]; [|discriminate K].
+    destruct ocsd as [csd|]; [|apply run_ret in R4; destruct R4 as [_ K]; inversion K].
+    cbn [tail_envs] in R4.
+    destruct (runs_bind_inv _ _ _ _ R4) as [(t9 & t10 & rm & _ & R5 & _)|(s & _ & K)]; [|discriminate K].
+    destruct (runs_bind_inv _ _ _ _ R5) as [(t11 & t12 & cs2 & _ & R6 & _)|(s & _ & K)]; [|discriminate K].
+    destruct (runs_bind_inv _ _ _ _ R6) as [(t13 & t14 & ua & _ & R7 & _)|(s & _ & K)]; [|discriminate K].
+    destruct (fst ua); [|apply run_ret in R7; destruct R7 as [_ K]; inversion K].
+    cbn [runs] in R7. destruct t14 as [|ea t15]; [destruct R7|]. destruct R7 as (_ & _ & R7).
+    destruct (ev_resp ea) as [er| | | | | | | | | | |v| | |]; try (apply run_ret in R7; destruct R7 as [_ K]; inversion K).
+    + destruct er; apply run_ret in R7; destruct R7 as [_ K]; inversion K.
+    + destruct v; try (apply run_ret in R7; destruct R7 as [_ K]; inversion K). destruct l; [apply run_ret in R7; destruct R7 as [_ K]; inversion K|].
+      destruct (runs_bind_inv _ _ _ _ R7) as [(t16 & t17 & ed & _ & R8 & _)|(s & _ & K)]; [|discriminate K].
+      apply run_ret in R8. destruct R8 as [_ K]. destruct ed; inversion K.
+  - destruct SP as [_ ->]. cbn [runs] in R3. destruct t6 as [|e t6']; [destruct R3|]. destruct R3 as (_ & Ec & R3).
+    apply run_ret in R3. destruct R3 as [-> _]. split.
+    + apply has_ev_app_r, has_ev_app_r. exists e. split; [left; reflexivity|exact Ec].
+    + intros (x & Hin & Ex). apply in_app_or in Hin. destruct Hin as [Hin|Hin]; [apply N1; exists x; auto|].
+      apply in_app_or in Hin. destruct Hin as [Hin|Hin]; [apply N3; exists x; auto|].
+      cbn in Hin. destruct Hin as [<-|[]]. rewrite Ec in Ex. discriminate Ex.
+  - apply run_ret in R3. destruct R3 as [_ K]. inversion K.
+  - apply run_ret in R3. destruct R3 as [_ K]. inversion K.
+Qed.
